@@ -10,9 +10,8 @@ sys.path.insert(0, os.path.join(vlib.VERIF, 'tools'))
 import gen_c03_progs as G
 
 LEVEL = 'proof'
-# same program shapes as the C03 differential (no `alloca` in inlinable functions: MIR_link's alloca hoisting is a
-# C04 finding that makes programs nondeterministic)
-FEATS = {'mem', 'switch', 'laddr', 'lref', 'indirect', 'reftab', 'inline', 'recursion', 'callback', 'ext_va', 'global', 'faddr'}
+# same program shapes as the C03 differential
+FEATS = {'mem', 'switch', 'laddr', 'lref', 'indirect', 'reftab', 'inline', 'recursion', 'callback', 'ext_va', 'global', 'faddr', 'alloca'}
 PDIR = os.path.join(vlib.BUILD, 'c16p')
 
 
